@@ -488,6 +488,9 @@ fn inflect(rep: &mut Report) {
                         ("variant-rename_all", format!("enum E {{ #[ts(rename_all = \"{rule_name}\")] V {{ other: bool, {attr}{ident_s}: {ty} }}, W }}")),
                         ("enum-rename_all_fields", format!("#[ts(rename_all_fields = \"{rule_name}\")] enum E {{ V {{ other: bool, {attr}{ident_s}: {ty} }}, W }}")),
                         ("tagged-enum-rename_all_fields", format!("#[ts(tag = \"t\", rename_all_fields = \"{rule_name}\")] enum E {{ V {{ {attr}{ident_s}: {ty} }}, W }}")),
+                        ("untagged-variant-rename_all_fields", format!("#[ts(rename_all_fields = \"{rule_name}\")] enum E {{ W, #[ts(untagged)] V {{ other: bool, {attr}{ident_s}: {ty} }} }}")),
+                        ("untagged-variant-of-tagged-enum-rename_all_fields", format!("#[ts(tag = \"t\", rename_all_fields = \"{rule_name}\")] enum E {{ W, #[ts(untagged)] V {{ other: bool, {attr}{ident_s}: {ty} }} }}")),
+                        ("skipped-sibling-variant-rename_all", format!("enum E {{ #[ts(skip)] W, #[ts(rename_all = \"{rule_name}\")] V {{ other: bool, {attr}{ident_s}: {ty} }} }}")),
                     ];
                     for (ctx_name, src) in contexts {
                         rep.evaluations += 1;
@@ -1169,6 +1172,15 @@ const SLOTS: &[Slot] = &[
         ],
     },
     Slot {
+        pos: "enum-representation",
+        template: "@ enum E { UnitV, NewV(i32), TupV(i32, i32), StructV { inner_field: i32 } }",
+        keys: &[
+            ("tag", "tag = \"kind\"", "tag = \"type\""),
+            ("content", "content = \"c\"", "content = \"data\""),
+            ("rename_all", "rename_all = \"camelCase\"", "rename_all = \"kebab-case\""),
+        ],
+    },
+    Slot {
         pos: "enum-adjacent",
         template: "#[ts(tag = \"t\")] @ enum E { UnitV, NewV(i32), TupV(i32, i32), StructV { inner_field: i32 } }",
         keys: &[
@@ -1369,6 +1381,16 @@ fn equiv(rep: &mut Report) {
                     // skip pairs ts-rs documents as incompatible
                     if (*key == "flatten" && *key2 == "rename") || (*key == "rename" && *key2 == "flatten") {
                         continue;
+                    }
+                    // the same two entries in one list or in two lists, in either spelling or mixed
+                    {
+                        let kinds = format!("supported:{key}+supported:{key2}");
+                        let joined_serde = fill(slot.template, &format!("#[serde({v1}, {w1})]"));
+                        let joined_ts = fill(slot.template, &format!("#[ts({v1}, {w1})]"));
+                        compare(rep, "two-lists-equal-one-list", slot.pos, &kinds, fill(slot.template, &format!("#[serde({v1})] #[serde({w1})]")), joined_serde.clone());
+                        compare(rep, "two-lists-equal-one-list", slot.pos, &kinds, fill(slot.template, &format!("#[ts({v1})] #[ts({w1})]")), joined_ts.clone());
+                        compare(rep, "two-lists-equal-one-list", slot.pos, &kinds, fill(slot.template, &format!("#[ts({v1})] #[serde({w1})]")), joined_ts.clone());
+                        compare(rep, "two-lists-equal-one-list", slot.pos, &kinds, fill(slot.template, &format!("#[serde({v1})] #[ts({w1})]")), joined_ts.clone());
                     }
                     for (ukind, u) in UNSUPPORTED {
                         let kinds = format!("supported:{key}+supported:{key2}+unsupported:{ukind}");
